@@ -108,6 +108,12 @@ func (n *Node) Reports() []string {
 	out = append(out, fmt.Sprintf("protorev number-of-trades = %s (err=%v)", nt, err != nil))
 	routes, _ := n.App.ProtoRevKeeper.GetAllRoutes(ctx)
 	out = append(out, fmt.Sprintf("protorev routes-with-statistics = %v", routes))
+	if pools, err := n.App.ConcentratedLiquidityKeeper.GetPools(ctx); err == nil {
+		for _, pl := range pools {
+			l, err := n.App.ConcentratedLiquidityKeeper.GetFullRangeLiquidityInPool(ctx, pl.GetId())
+			out = append(out, fmt.Sprintf("concentrated-liquidity full-range liquidity of pool %d = %s (err=%v)", pl.GetId(), l, err != nil))
+		}
+	}
 	ag, err := n.App.PoolManagerKeeper.GetAllTakerFeesShareAgreements(ctx)
 	out = append(out, fmt.Sprintf("poolmanager taker-fee share agreements = %v (err=%v)", ag, err != nil))
 	al, err := n.App.PoolManagerKeeper.GetAllRegisteredAlloyedPools(ctx)
